@@ -1,6 +1,8 @@
 package main
 
 import (
+	"fmt"
+	"os"
 	"go/types"
 	"strings"
 
@@ -717,6 +719,27 @@ func (p *Prog) ComputeInitOnly() {
 	for _, k := range p.allFieldKeys() {
 		if !escaped[k] {
 			p.InitOnly[k] = true
+		}
+	}
+	// freshonly T: every field of T gets an empty writers list (unless one is declared explicitly)
+	if p.Contracts != nil {
+		for _, tn := range p.Contracts.FreshOnlyTypes {
+			obj := p.Types.Scope().Lookup(tn)
+			if obj == nil {
+				fmt.Fprintf(os.Stderr, "contracts: freshonly: unknown type %s\n", tn)
+				continue
+			}
+			st, ok := obj.Type().Underlying().(*types.Struct)
+			if !ok {
+				continue
+			}
+			for i := 0; i < st.NumFields(); i++ {
+				k := p.fieldKey(obj.Type(), i)
+				if _, has := p.Contracts.Writers[k]; !has {
+					p.Contracts.Writers[k] = nil
+					p.Contracts.WritersProps[k] = p.Contracts.FreshOnlyProps[tn]
+				}
+			}
 		}
 	}
 	// a field key declared `writers <key>` with no listed function is written on fresh objects only
